@@ -352,16 +352,61 @@ def write_replay(pid, payload):
         return str(f)
 
 
+def anchored_files(pid):
+    for ln in (VERIF / 'properties.jsonl').read_text().splitlines():
+        if ln.strip():
+            p = json.loads(ln)
+            if p['id'] == pid:
+                return [os.path.join(REPO, f) for f in p['anchors']['files']]
+    return []
+
+
 def correspondence(ctx, prop, model_mod, scenarios, label):
     """Run implementation and model on the same scenarios; diff; evaluate the oracle."""
     impl_obs, hints, errs = [], [], 0
-    for lines in scenarios:
+    cov = None
+    if label == 'main' and os.environ.get('VERIF_NO_COVERAGE') != '1':
         try:
-            obs, hs = run_impl_guarded(model_mod, lines)
-        except Timeout:
-            obs, hs = ['hang'], []
-        impl_obs.append(obs)
-        hints.append(hs)
+            import coverage
+            files = [f for f in anchored_files(ctx.pid) if os.path.exists(f)]
+            if files:
+                cov = coverage.Coverage(include=files, data_file=None, config_file=False)
+                cov.start()
+        except Exception:       # noqa  (coverage is a convenience: never a reason to fail)
+            cov = None
+    try:
+        for lines in scenarios:
+            try:
+                obs, hs = run_impl_guarded(model_mod, lines)
+            except Timeout:
+                obs, hs = ['hang'], []
+            impl_obs.append(obs)
+            hints.append(hs)
+    finally:
+        if cov is not None:
+            cov.stop()
+            try:
+                rep = {}
+                for f in anchored_files(ctx.pid):
+                    if os.path.exists(f):
+                        _, stmts, _, missing, _ = cov.analysis2(f)
+                        src = pathlib.Path(f).read_text().splitlines()
+
+                        def body(n):
+                            # definitions run at import time, before measuring starts: count bodies only
+                            t = src[n - 1] if n <= len(src) else ''
+                            st = t.strip()
+                            return t.startswith(' ') and not st.startswith(('def ', 'class ', '@', '"""')) \
+                                and not (len(t) - len(t.lstrip()) == 4 and '=' in st and '(' not in st.split('=')[0]
+                                         and not st.startswith(('self.', 'return', 'if ', 'for ', 'while ')))
+                        bstmts = [n for n in stmts if body(n)]
+                        bmiss = [n for n in missing if body(n)]
+                        rep[os.path.relpath(f, REPO)] = {
+                            'body_statements': len(bstmts), 'executed': len(bstmts) - len(bmiss),
+                            'not_executed_lines': bmiss[:80]}
+                ctx.cov['anchored_line_coverage'] = rep
+            except Exception as e:      # noqa
+                ctx.cov['anchored_line_coverage'] = {'error': str(e)}
     model_in = [hs + lines for hs, lines in zip(hints, scenarios)]
     model_obs = run_driver(prop.MODEL, model_in)
     divergences = []
